@@ -2,7 +2,7 @@
    non-vacuity examples. *)
 From Coq Require Import List Bool Arith NArith ZArith Lia Sorting.Sorted.
 Import ListNotations.
-From C13 Require Import Model ProofsGlob ProofsKmp ProofsWild ProofsSearch.
+From C13 Require Import Model ProofsGlob ProofsKmp ProofsWild ProofsSearch ProofsTable ProofsSealed.
 
 (* The executable specification [glob] (what every case is judged against) is the declarative
    glob: text terms stand for themselves, every '*' for an arbitrary string. *)
@@ -69,6 +69,30 @@ Theorem C13_narrow_equiv : forall parse : bytes -> option Z,
 Proof. exact narrow_equiv. Qed.
 Print Assumptions C13_narrow_equiv.
 
+(* Token-table pre-selection: for every sorted duplicate-free field dictionary split into
+   non-empty entries (MaxVal = last token of the entry, field MinVal = first token), every
+   hint: SelectEntries returns bounds [l, r) that contain every entry holding a token whose
+   |hint|-prefix equals the hint (incl. the "next block after the last matching" rule). *)
+Theorem C13_select_entries_complete : forall entries hint,
+  entries <> [] -> Forall (fun e => e <> []) entries -> StronglySorted lt_bytes (concat entries) ->
+  exists l r, select_entries (hd [] (hd [] entries)) (map (fun e => last e []) entries) hint = Some (l, r) /\
+    (0 <= l)%Z /\ (r <= Z.of_nat (length entries))%Z /\
+    forall i t, i < length entries -> In t (nth i entries []) -> (exists x, t = hint ++ x) ->
+      (l <= Z.of_nat i < r)%Z.
+Proof. exact select_entries_complete. Qed.
+Print Assumptions C13_select_entries_complete.
+
+(* Sealed GetTIDsByTokenExpr (hint -> SelectEntries -> Provider over the selected entries ->
+   narrowed Search) returns exactly the TIDs a scan of every token of the field with the
+   glob / interval semantics returns — for every block layout. *)
+Theorem C13_sealed_equals_scan : forall parse : bytes -> option Z,
+  (forall s k, parse s = Some k -> (- maxkey <= k <= maxkey)%Z) ->
+  forall first entries q, wfq q -> entries <> [] -> Forall (fun e => e <> []) entries ->
+  StronglySorted lt_bytes (concat entries) ->
+  sealed_search parse first entries q = Some (spec_scan (spec_match parse q) first (concat entries)).
+Proof. exact sealed_equals_scan. Qed.
+Print Assumptions C13_sealed_equals_scan.
+
 (* ---------------------------------------------------------------- non-vacuity *)
 
 Definition a := 97%N.
@@ -111,4 +135,17 @@ Example C13_oracle_hypothesis_witness :
 Proof.
   split; [|vm_compute; split; reflexivity].
   apply lookup_bounded. repeat constructor; simpl; unfold maxkey; lia.
+Qed.
+
+(* a three-entry layout satisfying the hypotheses; the hint 'ab' selects the middle entry plus
+   the next one, and the search finds TID 8 *)
+Example C13_sealed_nonvacuous :
+  let entries := [[[]; [a]]; [[a; a]; [a; b]]; [[b]]] in
+  entries <> [] /\ Forall (fun e => e <> []) entries /\ StronglySorted lt_bytes (concat entries) /\
+  select_entries [] [[a]; [a; b]; [b]] [a; b] = Some (1, 3)%Z /\
+  sealed_search (lookup []) 5 entries (QLit [TText [a; b]; TStar]) = Some [8]%Z.
+Proof.
+  split; [discriminate|]. split; [repeat constructor; discriminate|].
+  split; [|vm_compute; split; reflexivity].
+  repeat (constructor; [|repeat constructor; reflexivity]). constructor.
 Qed.
